@@ -83,8 +83,9 @@ func NewRTMetrics(settings ...RTOption) (*RTMetrics, error) {
 
 // Export Returns a new RTMetrics which is a copy of the current one.
 func (m *RTMetrics) Export() *RTMetrics {
-	m.statusCodesLock.RLock()
-	defer m.statusCodesLock.RUnlock()
+	// write lock: cloning a counter rolls it forward first (it zeroes expired buckets)
+	m.statusCodesLock.Lock()
+	defer m.statusCodesLock.Unlock()
 	m.histogramLock.RLock()
 	defer m.histogramLock.RUnlock()
 
@@ -129,8 +130,9 @@ func (m *RTMetrics) NetworkErrorRatio() float64 {
 func (m *RTMetrics) ResponseCodeRatio(startA, endA, startB, endB int) float64 {
 	a := int64(0)
 	b := int64(0)
-	m.statusCodesLock.RLock()
-	defer m.statusCodesLock.RUnlock()
+	// write lock: Count() rolls the counter forward (it zeroes expired buckets)
+	m.statusCodesLock.Lock()
+	defer m.statusCodesLock.Unlock()
 	for code, v := range m.statusCodes {
 		if code < endA && code >= startA {
 			a += v.Count()
@@ -212,8 +214,9 @@ func (m *RTMetrics) NetworkErrorCount() int64 {
 // StatusCodesCounts returns map with counts of the response codes.
 func (m *RTMetrics) StatusCodesCounts() map[int]int64 {
 	sc := make(map[int]int64)
-	m.statusCodesLock.RLock()
-	defer m.statusCodesLock.RUnlock()
+	// write lock: Count() rolls the counter forward (it zeroes expired buckets)
+	m.statusCodesLock.Lock()
+	defer m.statusCodesLock.Unlock()
 	for k, v := range m.statusCodes {
 		if v.Count() != 0 {
 			sc[k] = v.Count()
